@@ -22,6 +22,36 @@ CHECKS = {
   text="Serialise/parse round trip from every well-formed in-memory requirement and from every pair of validated expressions admits exactly the same label values and keeps minValues; Any() never panics on validated operands and returns an admitted value. Known findings C13-F1 (exclusion list dropped next to a bound) and C13-F3 (Any ignores exclusions) are reported; C13-F2 (Any panic) was repaired by a fix: commit.",
   ref="DESIGN.md §7 C13",
   note="Claims the requirements half of the property (harnesses 1-2 of DESIGN §7 C13). Instance-type truncation, resource requests and template labels/hash are not covered yet by this check."),
+ "C05": dict(
+  technique="bounded symbolic execution (go/ssa -> SMT, z3) of Budget.IsActive/GetAllowedDisruptions, NodePool.GetAllowedDisruptionsByReason and BuildDisruptionBudgetMapping over real state.Cluster objects; symbolic clock, durations, node counts and budget counts; cron schedules modelled by period/offset and validated natively against robfig/cron",
+  text="IsActive is compared with the statement's window definition [hit, hit+duration) for six uniform-period schedules at a symbolic instant and duration; the allowed-disruptions value for up to 2 (3) budgets with every combination of count/percent/malformed nodes, schedule none/active-or-not/malformed and five reasons shapes equals the oracle 'most restrictive applicable active budget, malformed = zero'; the per-pool mapping built from a real cluster state of up to 3 (4) nodes equals allowed minus nodes already not ready or being deleted, never negative. C05-F1 (reasons: [] ignored) was repaired by a fix: commit.",
+  ref="DESIGN.md §7 C05",
+  note="Claims budget arithmetic and the budget mapping (harnesses 1-3 of DESIGN §7 C05). The candidate-selection loops of the five disruption methods, the validators and multi-round composition are not covered by this check. Cron expressions outside the modelled class, apimachinery's float rounding beyond n <= 10^6 are outside."),
+ "C16": dict(
+  technique="bounded symbolic execution (go/ssa -> SMT, z3) of the whole Reconcile bodies of the expiration, garbage-collection, liveness and node-health controllers against a fault-injecting API client / cloud provider / clock model; the assertion sits at the Delete call",
+  text="Every explored execution that reaches a NodeClaim Delete satisfies the documented trigger: expiry enabled and now >= creation+expireAfter; provider list succeeded without the instance, NodeClaim registered and not deleting, Node lookup succeeded with no Ready node; launch (5m) / registration (15m) timeout passed; an unhealthy condition lasted its own policy's toleration and at most ceil(20%) of up to 5 pool nodes are unhealthy. Clock instants, durations and tolerations are symbolic; each API/provider call may fail. C16-F1 (GC deleted after a failed Node lookup) was repaired by a fix: commit.",
+  ref="DESIGN.md §7 C16, §4, Appendix D",
+  note="One reconcile per run; <= 2 NodeClaims (GC), <= 5 nodes and 2 repair policies (health). Informer predicates, requeue timing and metrics are outside. Liveness assumes Launched and Registered conditions are present (set by the sub-reconcilers that run before it)."),
+ "C03": dict(
+  technique="bounded symbolic execution (go/ssa -> SMT, z3): public-API histories of state.NodePoolState with ghost state, and one inductive step of the scheduler's limit accounting (filterByRemainingResources/subtractMax) with symbolic quantities",
+  text="All histories of up to 4 (5) operations over {NodeClaim seen (marked or not), pending disruption, NodeClaim gone, reserve, release} on one static pool with two NodeClaim names and symbolic limits/counts: no crash, GetNodeCount equals the existing NodeClaims per state, every grant keeps existing + outstanding <= limit. One step of a scheduling pass from an arbitrary remaining-limits state over {cpu, memory, nodes}: no launch option of a newly opened NodeClaim exceeds the remaining limit and the carried remainder subtracts at least what the launched node consumes. C03-F1/F2/F3 were repaired by fix: commits.",
+  ref="DESIGN.md §7 C03, Appendix D",
+  note="Sequential model of NodePoolState (one mutex around every public method). 'Settles at the replica count' (liveness) and the reconcile loops of the static provisioning/deprovisioning controllers are not covered."),
+ "C19": dict(
+  technique="bounded symbolic execution (go/ssa -> SMT, z3; FloatingPoint prices) of InstanceTypes.Truncate/OrderByPrice and nodepool.OrderByWeight with sort.Slice modelled as a sort calling the real comparator",
+  text="For up to 3 instance types with symbolic float prices, availability and compatibility per offering and every maxItems: the truncated list is a duplicate-free subset of the right length and no dropped type has a cheaper compatible available offering than a kept one. For up to 4 NodePools with symbolic int32 weights: the result is a permutation, weights are non-increasing and ties are ordered by name.",
+  ref="DESIGN.md §7 C19",
+  note="Claims harnesses 1 and 3 of DESIGN §7 C19. The template loop of Scheduler.addToNewNodeClaim under parallel evaluation (lowest feasible index wins) is not covered by this check."),
+ "C17": dict(
+  technique="bounded symbolic execution (go/ssa -> SMT, z3) of ReservationManager, NodeClaim.offeringsToReserve, NodeClaim.Add and FinalizeScheduling over histories of evaluate[/commit] steps with symbolic reservation capacities and ghost holder sets",
+  text="Histories of 3 (4) steps over 3 in-flight NodeClaims, 2 reservation ids shared by 2 instance types (one with a stale larger capacity), three requirement sets, both reserved-offering modes: evaluating a placement never changes reservations; only compatible available reserved offerings that the NodeClaim holds or that have capacity left are selected; strict mode defers exactly when compatible reserved capacity exists but nothing can be reserved; after every commit holders <= capacity and remaining = capacity - holders; finalisation pins holders to reserved capacity with exactly their reservation ids.",
+  ref="DESIGN.md §7 C17",
+  note="Claims the capacity-reservation half. The DRA half (exclusive devices, shared capacity and counters: Allocator.Allocate and the allocation tracker) is not covered by this check."),
+ "C10": dict(
+  technique="bounded symbolic execution (go/ssa -> SMT, z3) of terminator.Queue.{Add,Reconcile,evict,forceDelete}, needsForceDelete and Terminator.Drain against the API-client model; symbolic clock, deadlines, grace periods and do-not-disrupt durations",
+  text="One queue reconcile of a pod with every combination of phase, terminating state, grace period, do-not-disrupt value (absent/true/duration/garbage), toleration and static ownership under a nil or symbolic node deadline with eviction and delete faults: removals happen only through the eviction subresource (active, non-tolerating, non-static pods without active do-not-disrupt) or through a Delete with grace >= 1 s, only under a deadline and no earlier than deadline minus the pod's own grace period. Re-adding a pod keeps the earlier deadline. A drain pass over up to 3 pods queues past-deadline pods of any tier and graceful candidates of the first non-empty tier only, and reports completion exactly when nothing drainable is left.",
+  ref="DESIGN.md §7 C10",
+  note="The API server's PDB enforcement, the informer/channel plumbing of the queue and interleavings of several drain passes with several queue reconciles are outside."),
 }
 
 REASON_WIP = "no check registered yet in this revision (the technique applies, see DESIGN.md §7; the harness is still to be built)"
